@@ -1,9 +1,10 @@
 import AvroModel.Theorems.C07full
 import AvroModel.Theorems.C08full
+import AvroModel.Theorems.GraphFuel
 /-
 Non-vacuity audit, area D: properties C07 (schema document parser) and C08 (Parsing Canonical
-Form, CRC-64-AVRO fingerprint).  (SchemaParse side of the import graph only: nothing of
-`SchemaRender`, C09, C19 is imported.)
+Form, CRC-64-AVRO fingerprint).  (SchemaParse side of the import graph, plus
+`Theorems/GraphFuel.lean` for the corollaries at the driver's `graphFuel`.)
 
 Contents
  A. The registration fuel of the driver (`parseJson j (4 * jsonSize j + 8)`) dominates the
@@ -11,7 +12,9 @@ Contents
     (`schemaSize_le_driver_fuel`), so that hypothesis is never the reason the theorem does not
     apply to a run of the driver; the fuel range of the conclusion about `canonicalForm`
     (`n + 2 ≤ fuel`) however does NOT contain the driver's `graphFuel S` when instantiated at the
-    driver's `n` (`padded_*`).
+    driver's `n` (`padded_fuel_gap`); the corollaries `C07_*_at_graphFuel` / `C08_*_at_graphFuel`
+    (`Theorems/GraphFuel.lean`) conclude at `graphFuel S` itself (`padded_at_graphFuel`,
+    `valid_parses_at_driver_fuels`).
  B. One document with namespaces, a record recursive through an array and through a union, an
     enum, a fixed with a `decimal` logical type, references spelled relative to the enclosing
     namespace: every hypothesis of `C07_valid_parses`, `C07_valid_parses_and_resolves`,
@@ -20,14 +23,15 @@ Contents
     `C07_node_stable`, `C07_order_independent_ref`, `C07_forward_ref_eq_late_lookup`,
     `C07_backward_ref_stable`, `C07_resolveKeys_*`, `C07_rejects_*`, `C07_preserves_record`) on
     the states the real `registerNode` goes through on a concrete document.
-    FINDING: `PState.Le st1 stF` is FALSE when `st1` is the state in which a reference (or any
-    nested node) was registered and `stF` is the FINAL registration state
+    FINDING (repaired): `PState.Le st1 stF` is FALSE when `st1` is the state in which a reference
+    (or any nested node) was registered and `stF` is the FINAL registration state
     (`le_to_final_state_fails`, `node_stable_hyp_fails_for_final_state`): the slot of the
     enclosing record / array / map / union is a placeholder in `st1` and is overwritten when the
-    enclosing node is completed.  The four theorems with a `hle : _.Le stF` hypothesis therefore
-    only apply with `stF` a state reached BEFORE the enclosing node is completed; a version that
-    does reach the final state needs only the `names` / `unres` parts of `Le`
-    (`order_independent_ref_final`, instantiated on the real final state).
+    enclosing node is completed.  The four theorems that had a `hle : _.Le stF` hypothesis are now
+    stated with `PState.LeNU` (names / unresolved only) resp. `PState.LeExcept op` (all slots but
+    the enclosing placeholders `op`) and are instantiated here on the REAL FINAL state of a real
+    `registerNode` run (`leX_1_F`, `leNU_1_F` obtained from `registerObject_inner` on the real
+    call).
  D. `C07_cycle_check_iff`, both directions, on graphs the parser really builds.
  E. CRC-64-AVRO: `C08_fold`, `C08_fingerprint_bytes`, `C18_fingerprint_is_crc` on `"int"` (the
     published value 8247732601305521295) and on the crate's own test vector
@@ -61,8 +65,9 @@ end
 /-- `Driver/Main.lean`: `parseJson j (4 * jsonSize j + 8)` -/
 def driverFuel (j : Json) : Nat := 4 * jsonSizeT j + 8
 
-/-- `Driver/Main.lean`, `graphFuel` (fuel of `canonicalForm` in `runSchema`, `runGraph`, ...) -/
-def graphFuelD (S : SchemaMut) : Nat := (S.size + 2) * (S.size + 2) * (maxWidth S + 2) + 64
+/-- `Driver/Main.lean`, `graphFuel` (fuel of `canonicalForm` in `runSchema`, `runGraph`, ...): the
+    REAL definition `Avro.Impl.graphFuel` (`Lemmas/DriverFuel.lean`) the driver uses -/
+abbrev graphFuelD (S : SchemaMut) : Nat := graphFuel S
 
 theorem schemaSize_le_jsonSizeT_aux :
     (∀ j, schemaSize j + 1 ≤ 4 * jsonSizeT j ∧
@@ -167,10 +172,36 @@ theorem padded_fuel_gap :
     graphFuelD #[⟨.int, none⟩] = 82 ∧ driverFuel docPadded + 2 = 142 := by
   refine ⟨by decide +kernel, by decide +kernel, by decide +kernel, by decide +kernel⟩
 
-/-- The gap is closed by instantiating at the least `n` (`schemaSize j`) — which speaks of the
+/-- The gap is closed by the corollary at the driver's fuel: parser at the driver's `n`, canonical
+    form at the driver's `graphFuel`, no fuel hypothesis left, for EVERY valid document … -/
+theorem valid_parses_at_driver_fuels (j : Json) (hv : ValidDoc j = true)
+    (hd : jsonNesting j ≤ 127) (hc : NoUnconditionalCycle j) :
+    ∃ S text, parseJson j (driverFuel j) = .ok S ∧ parsingCanonicalForm j = some text ∧
+      canonicalForm S (graphFuelD S) = .ok text :=
+  C07_valid_parses_and_resolves_at_graphFuel j (driverFuel j) hv hd (schemaSize_le_driver_fuel j) hc
+
+/-- … in particular for the padded document (82 is outside the range `142 ≤ fuel`). -/
+theorem padded_at_graphFuel :
+    parseJson docPadded (driverFuel docPadded) = .ok #[⟨.int, none⟩] ∧
+    parsingCanonicalForm docPadded = some "\"int\"" ∧
+    canonicalForm #[⟨.int, none⟩] (graphFuelD #[⟨.int, none⟩]) = .ok "\"int\"" := by
+  obtain ⟨S, text, h1, h2, h3⟩ :=
+    C07_valid_parses_checked_at_graphFuel docPadded (driverFuel docPadded) (by decide +kernel)
+      (by decide +kernel) (schemaSize_le_driver_fuel docPadded) (by decide +kernel)
+  have hS : S = #[⟨.int, none⟩] := by
+    have := padded_fuel_gap.2.1; rw [h1] at this; cases this; rfl
+  subst hS
+  have ht : text = "\"int\"" := by
+    have : parsingCanonicalForm docPadded = some "\"int\"" := by decide +kernel
+    rw [h2] at this; exact Option.some.inj this
+  subst ht
+  exact ⟨h1, h2, h3⟩
+
+/-- (Before that corollary the gap could only be closed by instantiating at the least `n`
+    (`schemaSize j`) — which speaks of the
     same graph only because `parseJson` happens to return the same graph for both fuels (checked
     here by evaluation; no registered theorem states that the result of `parseJson j n` does not
-    depend on `n` once `schemaSize j ≤ n`). -/
+    depend on `n` once `schemaSize j ≤ n`).) -/
 example : ∃ S text, parseJson docPadded 2 = .ok S ∧ parsingCanonicalForm docPadded = some text ∧
     ∀ fuel, 4 ≤ fuel → canonicalForm S fuel = .ok text :=
   C07_valid_parses_checked docPadded 2 (by decide +kernel) (by decide +kernel) (by decide +kernel)
@@ -248,6 +279,17 @@ theorem docTree_spec_text : parsingCanonicalForm docTree = some treeText := by d
 /-- here the driver's `graphFuel` is inside the fuel range of the theorem (`174 ≤ 576`) -/
 example : graphFuelD treeGraph = 576 ∧ driverFuel docTree + 2 = 174 := by
   refine ⟨by decide +kernel, by decide +kernel⟩
+
+/-- `C08_pcf_is_spec_at_graphFuel` / `C08_pcf_is_spec_text_at_graphFuel`: no look at the numbers
+    needed -/
+example : ∃ c, canon none docTree = some c ∧
+    canonicalForm treeGraph (graphFuelD treeGraph) = .ok (print c) :=
+  C08_pcf_is_spec_at_graphFuel docTree (driverFuel docTree) treeGraph docTree_parse (by decide +kernel)
+
+example : ∃ text, parsingCanonicalForm docTree = some text ∧
+    canonicalForm treeGraph (graphFuelD treeGraph) = .ok text :=
+  C08_pcf_is_spec_text_at_graphFuel docTree (driverFuel docTree) treeGraph docTree_parse
+    (by decide +kernel)
 
 /-- `C08_pcf_is_spec`: hypotheses "the parser accepts" and "no forward reference" -/
 example : ∃ c, canon none docTree = some c ∧
@@ -371,37 +413,80 @@ example : st2.names.lookup (defKey "E" attrsE.nsAttr (some "n")) = some st1.node
 example : defKey "E" attrsE.nsAttr (some "n") = ⟨some "n", "E"⟩ ∧ st1.nodes.size = 1 := by
   refine ⟨by decide +kernel, by decide +kernel⟩
 
-/-- `C07_order_independent_ref`, forward reference `a : E`: with `stF := st3`, the last state
-    BEFORE the enclosing record is completed -/
+/-- The relations that reach the FINAL state `stF` of the real run (slot 0, the record's own
+    placeholder, is overwritten at the end: `registerObject_inner` on the real call). -/
+theorem body_real :
+    bodyStep 30 .record (some attrsR) (some fieldsR) none none none (some ⟨some "n", "R"⟩) stA =
+      .ok (recordR.type, st3) := by decide +kernel
+
+theorem leX_3_F : st3.LeExcept [0] stF := by
+  obtain ⟨nk, s1, ty, s2, hn, hb, hin⟩ := registerObject_inner states_are_real.2.1
+  rw [states_are_real.2.2.1] at hn
+  cases hn
+  rw [body_real] at hb
+  cases hb
+  exact hin [] st3 (PState.Le.refl _).toLeExcept
+theorem leX_1_F : st1.LeExcept [0] stF := by
+  have := le_1_3.toLeExcept.trans leX_3_F
+  simpa using this
+theorem leX_2_F : st2.LeExcept [0] stF := by
+  have := le_2_3.toLeExcept.trans leX_3_F
+  simpa using this
+theorem leNU_1_F : st1.LeNU stF := leX_1_F.toLeNU
+theorem leNU_2_F : st2.LeNU stF := leX_2_F.toLeNU
+
+/-- `C07_order_independent_ref`, forward reference `a : E`, up to the REAL FINAL state `stF` of
+    the registration (the state `resolveKeys` works on) -/
+example : resolveKey stF (.pending 0) = 1 :=
+  C07_order_independent_ref 28 "E" (some "n") stA st1 stF (.pending 0) 1
+    states_are_real.2.2.2.2.1 leNU_1_F (by decide +kernel)
+
+/-- … and to the last state before the enclosing record is completed -/
 example : resolveKey st3 (.pending 0) = 1 :=
   C07_order_independent_ref 28 "E" (some "n") stA st1 st3 (.pending 0) 1
-    states_are_real.2.2.2.2.1 le_1_3 (by decide +kernel)
+    states_are_real.2.2.2.2.1 le_1_3.toLeNU (by decide +kernel)
 
-/-- `C07_forward_ref_eq_late_lookup` -/
-example : resolveKey st3 (.pending 0) = 1 ∧
-    registerNode 29 (.ref "E") (some "n") st3 = .ok (.idx 1, st3) :=
-  C07_forward_ref_eq_late_lookup 28 "E" (some "n") stA st1 st3 0 1
-    states_are_real.2.2.2.2.1 le_1_3 (by decide +kernel)
+/-- `C07_forward_ref_eq_late_lookup`, final state -/
+example : resolveKey stF (.pending 0) = 1 ∧
+    registerNode 29 (.ref "E") (some "n") stF = .ok (.idx 1, stF) :=
+  C07_forward_ref_eq_late_lookup 28 "E" (some "n") stA st1 stF 0 1
+    states_are_real.2.2.2.2.1 leNU_1_F (by decide +kernel)
 
-/-- `C07_order_independent_ref` and `C07_backward_ref_stable`, backward reference `c : n.E` -/
-example : resolveKey st3 (.idx 1) = 1 :=
-  C07_order_independent_ref 26 "n.E" (some "n") st2 st2 st3 (.idx 1) 1
-    states_are_real.2.2.2.2.2.2.2.1 le_2_3 (by decide +kernel)
+/-- `C07_order_independent_ref` and `C07_backward_ref_stable`, backward reference `c : n.E`,
+    final state -/
+example : resolveKey stF (.idx 1) = 1 :=
+  C07_order_independent_ref 26 "n.E" (some "n") st2 st2 stF (.idx 1) 1
+    states_are_real.2.2.2.2.2.2.2.1 leNU_2_F (by decide +kernel)
 
-example : st3.names.lookup (refKey "n.E" (some "n")) = some 1 :=
-  C07_backward_ref_stable 26 "n.E" (some "n") st2 st2 st3 1 states_are_real.2.2.2.2.2.2.2.1 le_2_3
+example : stF.names.lookup (refKey "n.E" (some "n")) = some 1 :=
+  C07_backward_ref_stable 26 "n.E" (some "n") st2 st2 stF 1 states_are_real.2.2.2.2.2.2.2.1
+    leNU_2_F
 
-/-- `C07_node_stable`: the enum written in `st2` is still there in `st3` -/
+/-- `C07_node_stable`: the enum written in `st2` (slot 1) is still there in the FINAL state; slot
+    0, the enclosing record's placeholder, is the exception -/
+example : stF.nodes[1]? = some ⟨.enum ⟨"n.E", "E", some "n"⟩ ["A"], none⟩ :=
+  C07_node_stable [0] st2 stF leX_2_F 1 _ (by decide) (by decide +kernel)
+
+/-- `C07_node_stable_le` between two states related by a complete call -/
 example : st3.nodes[1]? = some ⟨.enum ⟨"n.E", "E", some "n"⟩ ["A"], none⟩ :=
-  C07_node_stable st2 st3 le_2_3 1 _ (by decide +kernel)
+  C07_node_stable_le st2 st3 le_2_3 1 _ (by decide +kernel)
 
-/-- FINDING.  With `stF` the FINAL state of the registration — the state `resolveKeys` works on,
-    and the one the doc-comments of `C07_order_independent_ref` ("a document whose registration
-    ends in state `stF`") and `C07_node_stable` ("still there at the end") speak of — the
-    hypothesis `hle` is false: slot 0 is the placeholder `null` in `st1`, `st2`, `st3` and the
-    record in `stF`.  This is so for every reference and every nested node of every document:
-    a reference always stands inside a record / array / map / union whose slot is reserved
-    before its children are registered and overwritten afterwards. -/
+/-- `C07_node_survives_enclosing` on the real call of the enclosing record -/
+example : stF.nodes[1]? = some ⟨.enum ⟨"n.E", "E", some "n"⟩ ["A"], none⟩ :=
+  C07_node_survives_enclosing states_are_real.2.1 st2 1 _ (by decide) (by decide +kernel)
+    (fun nk s1 ty s2 hn hb => by
+      rw [states_are_real.2.2.1] at hn
+      cases hn
+      rw [body_real] at hb
+      cases hb
+      exact le_2_3)
+
+/-- WHY the hypothesis of these four theorems is `LeNU` / `LeExcept` and no longer `Le`: with
+    `stF` the FINAL state of the registration — the state `resolveKeys` works on — `st1.Le stF` is
+    false: slot 0 is the placeholder `null` in `st1`, `st2`, `st3` and the record in `stF`.  This
+    is so for every reference and every nested node of every document: a reference always stands
+    inside a record / array / map / union whose slot is reserved before its children are
+    registered and overwritten afterwards. -/
 theorem le_to_final_state_fails : ¬ st1.Le stF := by
   intro h
   have := h.nodes 0 (by decide)
@@ -411,39 +496,6 @@ theorem node_stable_hyp_fails_for_final_state : ¬ st2.Le stF ∧ ¬ st3.Le stF 
   refine ⟨fun h => ?_, fun h => ?_⟩
   · exact absurd (h.nodes 0 (by decide)) (by decide +kernel)
   · exact absurd (h.nodes 0 (by decide)) (by decide +kernel)
-
-/-- What the proofs of `C07_order_independent_ref` / `C07_backward_ref_stable` actually use, and
-    what does hold up to the final state: bindings persist, pending references are appended. -/
-structure LeNamesUnres (a b : PState) : Prop where
-  unres : ∃ l, b.unresolved = a.unresolved ++ l
-  names : ∀ k i, a.names.lookup k = some i → b.names.lookup k = some i
-
-theorem order_independent_ref_final (fuel : Nat) (r : String) (enc : Option String)
-    (st st1 stF : PState) (k : PKey) (i : Nat)
-    (h : registerNode (fuel + 1) (.ref r) enc st = .ok (k, st1))
-    (hle : LeNamesUnres st1 stF)
-    (hdef : stF.names.lookup (refKey r enc) = some i) :
-    resolveKey stF k = i := by
-  simp only [registerNode] at h
-  split at h
-  · rename_i i' hl
-    simp only [Except.ok.injEq, Prod.mk.injEq] at h
-    obtain ⟨rfl, rfl⟩ := h
-    have := hle.names _ _ hl
-    rw [hdef] at this
-    simpa [resolveKey] using this.symm
-  · simp only [Except.ok.injEq, Prod.mk.injEq] at h
-    obtain ⟨rfl, rfl⟩ := h
-    obtain ⟨l, hl⟩ := hle.unres
-    simp only at hl
-    simp [resolveKey, hl, hdef]
-
-/-- the real final state satisfies the weaker relation (`stF` differs from `st3` in `nodes` only) -/
-theorem leNU_1_F : LeNamesUnres st1 stF := ⟨le_1_3.unres, le_1_3.names⟩
-
-example : resolveKey stF (.pending 0) = 1 :=
-  order_independent_ref_final 28 "E" (some "n") stA st1 stF (.pending 0) 1
-    states_are_real.2.2.2.2.1 leNU_1_F (by decide +kernel)
 
 /-- `C07_resolveKeys_ok_iff`, `C07_resolveKeys_eq` on the real final state -/
 example : ∃ S, resolveKeys stF = .ok S :=
@@ -626,7 +678,20 @@ theorem docRepo_fingerprint : ∃ S, parseJson docRepo (driverFuel docRepo) = .o
       (schemaSize_le_driver_fuel docRepo) (by decide +kernel)
   rw [docRepo_spec_text] at ht
   cases ht
-  have hcf := hc (graphFuelD S + driverFuel docRepo) (by unfold graphFuelD; omega)
+  have hcf := hc (graphFuelD S + driverFuel docRepo) (by unfold graphFuelD graphFuel; omega)
+  refine ⟨S, hS, hcf, ?_⟩
+  rw [C18_fingerprint_is_crc S _ repoText hcf]
+  decide +kernel
+
+/-- the same at the driver's `graphFuel` exactly (`C07_valid_parses_checked_at_graphFuel`) -/
+theorem docRepo_fingerprint_at_graphFuel : ∃ S, parseJson docRepo (driverFuel docRepo) = .ok S ∧
+    canonicalForm S (graphFuelD S) = .ok repoText ∧
+    schemaFingerprint S (graphFuelD S) = .ok [18, 207, 199, 195, 150, 81, 210, 28] := by
+  obtain ⟨S, text, hS, ht, hcf⟩ :=
+    C07_valid_parses_checked_at_graphFuel docRepo (driverFuel docRepo) (by decide +kernel)
+      (by decide +kernel) (schemaSize_le_driver_fuel docRepo) (by decide +kernel)
+  rw [docRepo_spec_text] at ht
+  cases ht
   refine ⟨S, hS, hcf, ?_⟩
   rw [C18_fingerprint_is_crc S _ repoText hcf]
   decide +kernel
